@@ -2,7 +2,8 @@ package txsim
 
 // Event is one wallet-level event in model terms.
 //
-//	K: seen | confirm | disconnect | abandon | lease | release | tick | sweep
+//	K: seen | confirm | disconnect | abandon | lease | release | tick | sweep |
+//	   redeliver (H < 0: as unconfirmed; else the confirming block H,B,BT)
 type Event struct {
 	K     string   `json:"k"`
 	T     int64    `json:"t,omitempty"`     // txid
@@ -115,6 +116,15 @@ func (f *Facts) EventOK(u *Universe, e Event) bool {
 		return e.H >= 0
 	case "abandon":
 		return f.Unconf[e.T]
+	case "redeliver":
+		if u.Get(e.T) == nil {
+			return false
+		}
+		if e.H < 0 {
+			return f.Known(e.T)
+		}
+		b, ok := f.Conf[e.T]
+		return ok && b == [2]int64{e.H, e.B}
 	}
 	return true
 }
